@@ -395,6 +395,12 @@ func vfExpected(c *vfSCase, startDb int, start int64, raw [][][]byte) (exp []vfE
 		switch {
 		case name == "ping":
 		case name == "select":
+			if len(args) != 1 {
+				return // malformed: the parser stops, nothing after it is handed over
+			}
+			if _, err := strconv.Atoi(string(args[0])); err != nil {
+				return
+			}
 			if len(args) == 1 {
 				if n, err := strconv.Atoi(string(args[0])); err == nil {
 					srcSel = true
@@ -572,11 +578,11 @@ func vfGenCase(r *vfutil.Rand, idx int) *vfSCase {
 	if (c.tdb == -1 && r.Chance(1, 3)) || (c.tdb != -1 && r.Chance(1, 3)) { // also both set: TargetDb wins
 		c.dbMap = map[int]int{}
 		for i := 0; i < r.Range(1, 3); i++ {
-			c.dbMap[r.Intn(4)] = r.Intn(4)
+			c.dbMap[vfutil.Pick(r, []int{0, 1, 2, 3, 10})] = vfutil.Pick(r, []int{0, 1, 2, 3, 11})
 		}
 	}
 	if r.Chance(1, 4) {
-		c.fdb = []int{r.Range(1, 3)}
+		c.fdb = []int{vfutil.Pick(r, []int{1, 2, 3, 1, 2, 3, 10})}
 	}
 	if r.Chance(1, 3) {
 		c.fcmd = []string{vfutil.Pick(r, []string{"incr", "INCR", "Append", "hset"})}
@@ -656,15 +662,30 @@ func vfGenCase(r *vfutil.Rand, idx int) *vfSCase {
 	}
 	n := r.Range(0, vfutil.Scale(30, 60))
 	stallAfter := map[int]bool{}
-	if r.Chance(3, 4) && c.sdb < 0 {
-		c.raw = append(c.raw, [][]byte{[]byte("SELECT"), []byte(strconv.Itoa(r.Intn(4)))})
+	// database numbers: mostly 0..3, sometimes two-digit (INFO keyspace "db10", "db12")
+	dbNum := func() int {
+		if r.Chance(1, 8) {
+			return vfutil.Pick(r, []int{10, 12})
+		}
+		return r.Intn(4)
 	}
+	if r.Chance(3, 4) && c.sdb < 0 {
+		c.raw = append(c.raw, [][]byte{[]byte("SELECT"), []byte(strconv.Itoa(dbNum()))})
+	}
+	noRoute := make([]string, 0, len(vfNoRoute))
+	for k := range vfNoRoute {
+		noRoute = append(noRoute, k)
+	}
+	sort.Strings(noRoute)
 	for len(c.raw) < n {
 		switch r.Intn(14) {
 		case 0:
 			c.raw = append(c.raw, [][]byte{[]byte("PING")})
 		case 1:
-			c.raw = append(c.raw, [][]byte{[]byte("select"), []byte(strconv.Itoa(r.Intn(4)))})
+			// (a malformed SELECT is outside the quantifier -- well-formed streams -- and ends the run at a
+			// point the scheduler chooses: after the parser's error the sender loop leaves after whichever
+			// ready event it picks next, so there is no single expected log)
+			c.raw = append(c.raw, [][]byte{[]byte("select"), []byte(strconv.Itoa(dbNum()))})
 		case 2, 3:
 			c.raw = append(c.raw, [][]byte{[]byte("MULTI")})
 			if r.Chance(1, 4) {
@@ -676,7 +697,7 @@ func vfGenCase(r *vfutil.Rand, idx int) *vfSCase {
 			}
 			for i := nTx; i > 0; i-- {
 				if r.Chance(1, 5) { // a transaction touching several databases
-					c.raw = append(c.raw, [][]byte{[]byte("SELECT"), []byte(strconv.Itoa(r.Intn(4)))})
+					c.raw = append(c.raw, [][]byte{[]byte("SELECT"), []byte(strconv.Itoa(dbNum()))})
 				}
 				c.raw = append(c.raw, data())
 			}
@@ -686,7 +707,14 @@ func vfGenCase(r *vfutil.Rand, idx int) *vfSCase {
 		case 5:
 			c.raw = append(c.raw, [][]byte{[]byte("PUBLISH"), []byte("__sentinel__:hello"), []byte("x")})
 		case 6:
-			c.raw = append(c.raw, [][]byte{[]byte(vfutil.Pick(r, []string{"FLUSHALL", "publish", "Debug"})), []byte("chan"), []byte("m")})
+			nm := vfutil.Pick(r, []string{"FLUSHALL", "publish", "Debug"})
+			if r.Bool() { // any command of the fixed no-route list (the oracle's own copy of it)
+				nm = vfutil.Pick(r, noRoute)
+				if r.Bool() {
+					nm = strings.ToUpper(nm)
+				}
+			}
+			c.raw = append(c.raw, [][]byte{[]byte(nm), []byte("chan"), []byte("m")})
 		default:
 			c.raw = append(c.raw, data())
 		}
